@@ -488,33 +488,117 @@ theorem awaitFiber_conserved (w : World) (f : Nat) (hc : Conserved w) : Conserve
 theorem finishFiber_conserved (w : World) (f : Nat) (e : Bool) (hc : Conserved w) : Conserved (finishFiber w f e) :=
   Conserved.congr rfl rfl (fun _ => rfl) hc
 
-theorem loopRunTask_conserved (w : World) (hc : Conserved w) : Conserved (loopRunTask w).1 := by
+/-! ### frames: transitions that leave channels and the push / hand-out history alone and only raise sched_ids -/
+
+def SchedLe (w w' : World) : Prop := ∀ f, (w.fibers f).sched ≤ (w'.fibers f).sched
+
+structure Frame (w w' : World) : Prop where
+  chans : w'.chans = w.chans
+  pushed : w'.ghost.pushed = w.ghost.pushed
+  handed : w'.ghost.handed = w.ghost.handed
+  sched : SchedLe w w'
+
+theorem Frame.refl (w : World) : Frame w w := ⟨rfl, rfl, rfl, fun _ => Nat.le_refl _⟩
+
+theorem Frame.trans {a b c : World} (h1 : Frame a b) (h2 : Frame b c) : Frame a c :=
+  ⟨h2.chans.trans h1.chans, h2.pushed.trans h1.pushed, h2.handed.trans h1.handed,
+   fun f => Nat.le_trans (h1.sched f) (h2.sched f)⟩
+
+theorem scheduleGeneral_frame (w : World) (f : Nat) (v : Val) (s : Sig) (b : Bool) :
+    Frame w (scheduleGeneral w f v s b) := by
+  refine ⟨scheduleGeneral_chans w f v s b, by rw [scheduleGeneral_ghost], by rw [scheduleGeneral_ghost], ?_⟩
+  intro g
+  unfold scheduleGeneral
+  by_cases h : (w.fibers f).canceled = true
+  · simp [h]
+  · by_cases hg : g = f <;> simp [h, setFiber, hg]
+
+theorem schedule_frame (w : World) (f : Nat) (v : Val) : Frame w (schedule w f v) := scheduleGeneral_frame w f v .ok false
+theorem cancelFiber_frame (w : World) (f : Nat) (v : Val) : Frame w (cancelFiber w f v) := scheduleGeneral_frame w f v .error false
+
+theorem foldl_frame {α : Type} (g : World → α → World) (hg : ∀ w a, Frame w (g w a)) (l : List α) :
+    ∀ w, Frame w (l.foldl g w) := by
+  induction l with
+  | nil => intro w; exact Frame.refl w
+  | cons a rest ih => intro w; exact Frame.trans (hg w a) (ih (g w a))
+
+theorem closeWake_frame (cfg : Cfg) (c : Nat) (b : Bool) (w : World) (p : Pending) : Frame w (closeWake cfg c b w p) := by
+  unfold closeWake
+  split
+  · exact schedule_frame _ _ _
+  · exact Frame.refl w
+
+theorem fireTimer_frame (w : World) (t : Timer) : Frame w (fireTimer w t) := by
+  unfold fireTimer
+  split
+  · split
+    · exact cancelFiber_frame _ _ _
+    · exact Frame.refl w
+  · split
+    · split
+      · exact cancelFiber_frame _ _ _
+      · exact schedule_frame _ _ _
+    · exact Frame.refl w
+
+theorem loopTimers_frame (w : World) : Frame w (loopTimers w) := by
+  unfold loopTimers
+  exact Frame.trans (b := { w with clock := w.clock + w.clockStep,
+                                    timers := w.timers.dropWhile (fun t => decide (t.when ≤ w.clock + w.clockStep)) })
+    ⟨rfl, rfl, rfl, fun _ => Nat.le_refl _⟩ (foldl_frame fireTimer fireTimer_frame _ _)
+
+theorem setFiber_same_sched_frame (w : World) (f : Nat) (x : Fiber) (h : x.sched = (w.fibers f).sched) :
+    Frame w (setFiber w f x) := by
+  refine ⟨rfl, rfl, rfl, ?_⟩
+  intro g
+  by_cases hg : g = f
+  · subst hg; simp [setFiber, h]
+  · simp [setFiber, hg]
+
+theorem awaitFiber_frame (w : World) (f : Nat) : Frame w (awaitFiber w f) := by
+  refine ⟨rfl, rfl, rfl, ?_⟩
+  intro g; unfold awaitFiber; by_cases hg : g = f <;> simp [setFiber, hg]
+
+theorem finishFiber_frame (w : World) (f : Nat) (e : Bool) : Frame w (finishFiber w f e) := by
+  refine ⟨rfl, rfl, rfl, ?_⟩
+  intro g; unfold finishFiber; by_cases hg : g = f <;> simp [setFiber, hg]
+
+theorem loopRunTask_frame (w : World) : Frame w (loopRunTask w).1 := by
   unfold loopRunTask
   cases hq : w.runq with
-  | nil => exact hc
+  | nil => exact Frame.refl w
   | cons t rest =>
     simp only []
-    split
-    · exact Conserved.congr rfl rfl (fun _ => rfl) hc
+    refine ⟨?_, ?_, ?_, ?_⟩
     · split
-      · exact Conserved.congr rfl rfl (fun _ => rfl) hc
-      · exact Conserved.congr rfl rfl (fun _ => rfl) hc
-
-theorem loopTimers_conserved (w : World) (hc : Conserved w) : Conserved (loopTimers w) := by
-  unfold loopTimers
-  have key : ∀ (ts : List Timer) (w0 : World), Conserved w0 →
-      Conserved (ts.foldl (fun w t => if (w.fibers t.fiber).sched = t.sched then schedule w t.fiber .nil else w) w0) := by
-    intro ts
-    induction ts with
-    | nil => intro w0 h; exact h
-    | cons t rest ih =>
-      intro w0 h
-      simp only [List.foldl_cons]
-      apply ih
+      · rfl
+      · split
+        · rfl
+        · split <;> rfl
+    · split
+      · rfl
+      · split
+        · rfl
+        · split <;> rfl
+    · split
+      · rfl
+      · split
+        · rfl
+        · split <;> rfl
+    · intro g
       split
-      · exact schedule_conserved _ _ _ h
-      · exact h
-  exact key _ _ (Conserved.congr rfl rfl (fun _ => rfl) hc)
+      · by_cases hg : g = t.fiber <;> simp [setFiber, hg]
+      · split
+        · by_cases hg : g = t.fiber <;> simp [setFiber, hg]
+        · split <;> (by_cases hg : g = t.fiber <;> simp [setFiber, hg])
+
+theorem Conserved.frame {w w' : World} (h : Frame w w') (hc : Conserved w) : Conserved w' :=
+  Conserved.congr h.pushed h.handed (fun c => by rw [h.chans]) hc
+
+theorem loopRunTask_conserved (w : World) (hc : Conserved w) : Conserved (loopRunTask w).1 :=
+  Conserved.frame (loopRunTask_frame w) hc
+
+theorem loopTimers_conserved (w : World) (hc : Conserved w) : Conserved (loopTimers w) :=
+  Conserved.frame (loopTimers_frame w) hc
 
 theorem step_conserved (cfg : Cfg) (w : World) (a : Action) (hc : Conserved w) : Conserved (step cfg w a).1 := by
   unfold step
@@ -523,7 +607,19 @@ theorem step_conserved (cfg : Cfg) (w : World) (a : Action) (hc : Conserved w) :
     cases a <;> simp only [] <;> (first | exact hc | exact loopRunTask_conserved w hc | exact loopTimers_conserved w hc | exact Conserved.congr rfl rfl (fun _ => rfl) hc)
   | some f =>
     cases a with
-    | go g => exact schedule_conserved _ _ _ hc
+    | go g =>
+      simp only []
+      split
+      · exact schedule_conserved _ _ _ hc
+      · exact hc
+    | cancel g =>
+      simp only []
+      split
+      · exact hc
+      · exact Conserved.congr (by rw [cancelFiber, scheduleGeneral_ghost]) (by rw [cancelFiber, scheduleGeneral_ghost])
+          (fun c => by rw [cancelFiber, scheduleGeneral_chans]) hc
+    | deadline s ms => exact Conserved.congr rfl rfl (fun _ => rfl) hc
+    | scopeEnd s => exact Conserved.congr rfl rfl (fun _ => rfl) hc
     | give c x =>
       simp only []
       cases hp : chanPush cfg w f c x 0 with
@@ -548,7 +644,7 @@ theorem step_conserved (cfg : Cfg) (w : World) (a : Action) (hc : Conserved w) :
       | none => exact awaitFiber_conserved _ _ (choiceRegister_conserved cfg f cls w hc)
       | some r => exact choiceImmediate_conserved cfg f cls w r.1 r.2 hi hc
     | close c => exact chanClose_conserved cfg w c hc
-    | sleep0 => exact awaitFiber_conserved _ _ (Conserved.congr rfl rfl (fun _ => rfl) hc)
+    | sleep ms => exact awaitFiber_conserved _ _ (Conserved.congr rfl rfl (fun _ => rfl) hc)
     | finish e => exact finishFiber_conserved _ _ _ hc
     | runTask => exact hc
     | timers => exact hc
